@@ -240,7 +240,7 @@ fn families_for(prop: &str, quick: bool) -> Vec<&'static str> {
     match prop {
         "C01" => vec!["F1", "F2", "F3", "F4", "F5", "F6", "F8", "F9", "F10"],
         "C02" => vec!["F1", "F2", "F3", "F4", "F5", "F6", "F8", "F9", "F10"],
-        "C03" => vec!["F6", "F5", "F1", "F2"],
+        "C03" => vec!["F6", "F5", "F1", "F2", "F3", "F4", "F8", "F10"],
         "C06" => vec!["F6"],
         "C07" => vec!["F1", "F2", "F3", "F4", "F5", "F6", "F7", "F8", "F9", "F10"],
         "C08" => {
@@ -323,7 +323,7 @@ pub fn run(args: &Args) -> i32 {
     run.set_rule(match prop {
         "C01" => "every program of families F1-F6, F8 (repeated sub-plans), F9 (multi-selection atoms over a ternary relation) and F10 (bound recursive queries in the desugared `?p(1, Y)` form, the one the magic-sets rewrite acts on) (complete within the grammar bounds of harness/src/gen.rs) x every EDB with <=m tuples per relation over D={1,2,3} (all subsets); default optimizer config, 1 worker; engine answer compared as a set with reference evaluator R1. non-trivial = (program,EDB) pairs whose reference answer is non-empty, counted distinct by hash of (program,EDB)",
         "C02" => "every program of F1-F6, F8 (repeated sub-plans), F9 (multi-selection atoms over a ternary relation) and F10 (bound recursive queries in the form the magic-sets rewrite acts on) x every small EDB (quick: at most 10 per program, fixed stride) x all 32 optimizer switch combinations; all 32 answers must be equal and equal to R1. evaluation = one engine execution; non-trivial = distinct (program,EDB) with non-empty reference answer",
-        "C03" => "programs of F1,F2,F5,F6 x EDBs of up to 16 tuples over D={1..4} x workers in {1,2,3,4,8}; answer(w) must equal answer(1) and R1; non-trivial = distinct (program,EDB) with non-empty answer",
+        "C03" => "programs of F1,F2,F3,F4,F5,F6,F8,F10 (conjunctive, union heads, negation, recursion, arithmetic, aggregates, repeated sub-plans, bound recursive queries) x EDBs of up to 16 tuples over D={1..4} x workers in {1,2,3,4,8}; answer(w) must equal answer(1) and R1; non-trivial = distinct (program,EDB) with non-empty answer",
         "C06" => "all aggregate programs of F6 x all small EDBs x all 32 optimizer configurations; engine vs R1 aggregate semantics (distinct body valuations); non-trivial = distinct (program,EDB) with non-empty answer",
         "C07" => "every accepted program of F1-F10 x EDBs; structural check of the answer (no duplicate tuple, arity = head arity, head constants verbatim); constants leg: int / float / string / bool head constants in five shapes where two constants could be mixed up (two union branches, two rules joined, two constants in one head, the same constant twice, a computed column differing in a constant) x 2 EDBs x all 32 configurations, exact expected rows; non-trivial = distinct (program,EDB) with non-empty engine answer",
         "C08" => "programs with >=1 intermediate rule (F2-F4; +F1 thorough) x EDBs x limits {1,2,3,5,|A|,|A|+1}; result must be a duplicate-free subset of the unlimited answer A of size min(N,|A|); non-trivial = distinct (program,EDB,N) with non-empty A",
